@@ -82,6 +82,13 @@ func (c *Channel) LeavePresence(ctx context.Context, status string, p stanza.Pre
 		)
 	}
 
+	// The presence handler does not wait for us when it reports the departure.
+	// It may be handled before we start waiting for it below, so it has to be
+	// left somewhere: every attempt gets its own channel with room for it.
+	c.client.managedM.Lock()
+	c.depart = make(chan struct{}, 1)
+	c.client.managedM.Unlock()
+
 	ctx, cancel := context.WithCancel(ctx)
 	defer cancel()
 
